@@ -12,7 +12,6 @@ import (
 	"sort"
 	"strconv"
 	"strings"
-	"unicode"
 	"unicode/utf8"
 )
 
@@ -376,8 +375,6 @@ func hasTrimmable(p P) bool {
 	return false
 }
 
-var _ = unicode.IsSpace
-
 // fileNameOK: the name is a MUST for plain names. A name with a directory part
 // may arrive whole or as its last element (multipart carries base names), and
 // an empty or dot name, a name with a control byte or a name that is not UTF-8
@@ -431,12 +428,15 @@ func judge(c *Case, res *result) (v verdict) {
 	}
 	v.invoked = res.cap.calls > 0
 	v.nontrivial = v.invoked
-	v.outcome = fmt.Sprintf("%d", v.status)
+	v.outcome = fmt.Sprintf("round-trip-intact-%d", v.status)
 	var culprit *P // the parameter whose value differs, when the failure is about one
 	var culpritGot any
 	fail := func(class, format string, a ...any) verdict {
 		v.class = class + knownSuffix(c, res, class, culprit, culpritGot)
 		v.what = fmt.Sprintf(format, a...)
+		if v.invoked {
+			v.outcome = "invoked-but-" + class
+		}
 		return v
 	}
 	// a case wholly outside the guarantee: a path value that is normalised away re-routes
@@ -473,7 +473,7 @@ func judge(c *Case, res *result) (v verdict) {
 			return fail("client-error", "Submit failed before sending: %v", res.submitErr)
 		}
 		v.outcome = fmt.Sprintf("not-invoked-%d", v.status)
-		return fail(fmt.Sprintf("not-invoked-%d", v.status), "handler not invoked, status %d, request line %q, response body seen by reader: %s", v.status, firstLine(res.w.reqText), show(res.seen.body))
+		return fail(fmt.Sprintf("not-invoked-%d", v.status), "handler not invoked, status %d, request line %q, response body seen by reader: %s", v.status, firstLine(res.w.reqText), show(res.seen.raw))
 	}
 	if res.cap.calls > 1 {
 		return fail("invoked-more-than-once", "handler invoked %d times", res.cap.calls)
@@ -697,7 +697,7 @@ func knownSuffix(c *Case, res *result, class string, p *P, got any) string {
 			}
 		}
 		// (see also form-value-differs below)
-	// the untyped binder decodes every body that is not an array into a map
+		// the untyped binder decodes every body that is not an array into a map
 		if b := find(c, "body"); b != nil && (b.Type == "text" || b.Type == "bytes" || b.Type == "jstring") && strings.HasPrefix(msg, b.Name+" in body must be of type") {
 			return "/body-schema-string"
 		}
@@ -737,9 +737,13 @@ func knownSuffix(c *Case, res *result, class string, p *P, got any) string {
 
 // errorMessage is the "message" member of the JSON error body the reader saw.
 func errorMessage(res *result) string {
-	m, _ := res.seen.body.(map[string]interface{})
-	s, _ := m["message"].(string)
-	return s
+	var m struct {
+		Message string `json:"message"`
+	}
+	if json.Unmarshal(res.seen.raw, &m) != nil {
+		return ""
+	}
+	return m.Message
 }
 
 func isZero(got any) bool {
